@@ -195,21 +195,20 @@ Definition parse_param (c : pctx) (it : list str) : option pitem :=
       end
   end.
 
-(* _read_attributes_section: `annotation` lives across loop iterations *)
-Fixpoint parse_attrs (c : pctx) (prev : option str) (items : list (list str)) : list pitem :=
-  match items with
-  | [] => []
-  | [] :: r => parse_attrs c prev r
-  | (l0 :: conts) :: r =>
+(* one item of _read_attributes_section (`annotation = None` at the top of each iteration) *)
+Definition parse_attr (c : pctx) (it : list str) : option pitem :=
+  match it with
+  | [] => None
+  | l0 :: conts =>
       match split_first colon l0 with
-      | None => parse_attrs c prev r
+      | None => None
       | Some (nwt, d) =>
           let '(name, ann) :=
             match split_first sp nwt with
             | Some (n, a) => (n, Some (clean_annotation a))
-            | None => (nwt, match lookup_attr c nwt with Some a => a | None => prev end)
+            | None => (nwt, match lookup_attr c nwt with Some a => a | None => None end)
             end in
-          mkItem (Some name) ann (desc_of d conts) None :: parse_attrs c ann r
+          Some (mkItem (Some name) ann (desc_of d conts) None)
       end
   end.
 
@@ -258,13 +257,13 @@ Fixpoint filter_map {A B} (f : A -> option B) (l : list A) : list B :=
   end.
 
 (* _RE_NAME_ANNOTATION_DESCRIPTION (text pinned in harness/props/c13.py:PINNED_REGEX): optional prefix
-   [name = \w+]? \s* [ '(' type = .+ ')' ]? ':' \s*   followed by desc = rest of the line.   -> (name, type, desc) *)
+   [name = \w+]? \s* [ '(' type = .+? ')' ]? ':' \s*   followed by desc = rest of the line.   -> (name, type, desc) *)
 Definition re_name_annotation_description (line : str) : option str * option str * str :=
   let '(w, r1) := span is_word line in
   let name := match w with [] => None | _ => Some w end in
   let r2 := lstrip r1 in
   match r2 with
-  | "(" :: r3 => match last_parencolon r3 with
+  | "(" :: r3 => match first_parencolon r3 with
                  | Some (ty, rest) => (name, Some ty, lstrip rest)
                  | None => (None, None, line)
                  end
@@ -383,7 +382,7 @@ Definition ret_reader (c : pctx) (multi named : bool) (gen_index : nat) (ls : li
 Definition read_section (o : gopts) (c : pctx) (k : kind) (ls : list str) : rs_result :=
   match k with
   | KParams | KOther => items_reader (filter_map (parse_param c)) ls
-  | KAttrs => items_reader (parse_attrs c None) ls
+  | KAttrs => items_reader (filter_map (parse_attr c)) ls
   | KFuncs | KClasses => items_reader (filter_map parse_func) ls
   | KModules => items_reader (filter_map parse_module) ls
   | KRaises | KWarns => items_reader (filter_map parse_raise) ls
